@@ -44,7 +44,7 @@ func checkC13(w *World, r *Report) {
 		return
 	}
 	up := w.MethodOf(types.NewPointer(meta), "Update")
-	c13Gate(w, r, up)
+	c13Gate(w, r, up, "C13.a", "C13.b")
 	c13Client(w, r)
 	c13Determinism(w, r, up)
 	c13Snapshot(w, r, meta)
@@ -52,9 +52,9 @@ func checkC13(w *World, r *Report) {
 	c13Listings(w, r)
 }
 
-func c13Gate(w *World, r *Report, up *ssa.Function) {
-	obA := r.Ob("C13.a", "a-version-gate", "in the metadata Update: store.Set / store.Delete are reachable only over an edge establishing Get-error != nil (key not stored) or stored.Ver == update.Ver; on the edge stored.Ver != update.Ver the entry's result is ResultCodeVersionMismatch with Data = marshal(stored pair) and neither Set nor Delete is reachable before the next entry", "without the gate two racing creations or lease requests both succeed")
-	obB := r.Ob("C13.b", "b-version-is-index", "the version argument of store.Set (and the version reported in the success result) derives from the entry's Index", "versions that are not the log index are not unique/increasing: a stale version can match again")
+func c13Gate(w *World, r *Report, up *ssa.Function, idA, idB string) {
+	obA := r.Ob(idA, "a-version-gate", "in the metadata Update: store.Set / store.Delete are reachable only over an edge establishing Get-error != nil (key not stored) or stored.Ver == update.Ver; on the edge stored.Ver != update.Ver the entry's result is ResultCodeVersionMismatch with Data = marshal(stored pair) and neither Set nor Delete is reachable before the next entry", "without the gate two racing creations or lease requests both succeed")
+	obB := r.Ob(idB, "b-version-is-index", "the version argument of store.Set (and the version reported in the success result) derives from the entry's Index", "versions that are not the log index are not unique/increasing: a stale version can match again")
 	if up == nil {
 		obA.Undecided("anchor", "metadata Update not found")
 		return
@@ -712,4 +712,22 @@ func c13Listings(w *World, r *Report) {
 		}
 	}
 	ob.NeedFloor(7)
+}
+
+// metaUpdate: the Update method of the metadata state machine (implements IConcurrentStateMachine in storage/kv).
+func metaUpdate(w *World) *ssa.Function {
+	smp := w.ByPath[smPath]
+	if smp == nil {
+		return nil
+	}
+	it, ok := smp.Types.Scope().Lookup("IConcurrentStateMachine").Type().Underlying().(*types.Interface)
+	if !ok {
+		return nil
+	}
+	for _, t := range w.Implementers(it) {
+		if n, ok := deref(t).(*types.Named); ok && n.Obj().Pkg().Path() == kvPath {
+			return w.MethodOf(types.NewPointer(n), "Update")
+		}
+	}
+	return nil
 }
